@@ -3,7 +3,7 @@
    W x = (|x| + 1) * B ^ (stars of x):
      W s + sum over the stack of W (saved pattern) + |q| * (W p + 1).
    Every iteration that does not answer lowers it by at least one. *)
-From CV Require Import Base.Bytes Base.Glob Path.Defs Path.MatchProofs Path.SpecProofs.
+From CV Require Import Base.Bytes Base.Glob Path.Defs Path.MatchProofs Path.SpecProofs Path.CanonProofs.
 From Coq Require Import Arith Lia.
 Local Open Scope nat_scope.
 
@@ -240,4 +240,24 @@ Proof.
   intros Hf Hc. destruct (pathmatch_model_total pattern path base isdir) as [b Hb].
   exists b. split; [exact Hb|].
   exact (pathmatch_fuel_spec _ pattern path base isdir b Hf Hc Hb).
+Qed.
+
+(* the same with the syntactic premise: pattern and path (after joining with the
+   base path where applicable) are rooted or do not begin with a ".." component *)
+Theorem pathmatch_fuel_spec_ok fuel pattern path base isdir b :
+  fast_ok pattern base = true ->
+  canon_ok (pat_raw pattern base) = true -> canon_ok (path_raw path base) = true ->
+  pathmatch_fuel fuel pattern path base isdir = Some b ->
+  (b = true <-> pathmatch_spec pattern path base isdir).
+Proof.
+  intros Hf Hp Ht. apply pathmatch_fuel_spec; [exact Hf|apply reads_canon_of_ok; assumption].
+Qed.
+
+Theorem pathmatch_total_ok pattern path base isdir :
+  fast_ok pattern base = true ->
+  canon_ok (pat_raw pattern base) = true -> canon_ok (path_raw path base) = true ->
+  exists b, pathmatch_model pattern path base isdir = Some b /\
+            (b = true <-> pathmatch_spec pattern path base isdir).
+Proof.
+  intros Hf Hp Ht. apply pathmatch_total; [exact Hf|apply reads_canon_of_ok; assumption].
 Qed.
